@@ -529,7 +529,7 @@ def c12_history(spec: dict) -> dict:
         for opi in range(n_ops):
             kinds = ["parse", "parse", "parse_ns", "schedule", "observe", "observe", "report", "report", "cli", "gc"]
             if not fault_free:
-                kinds += ["cancel", "cancel", "io_fault", "clock", "tz"]
+                kinds += ["cancel", "cancel", "io_fault", "clock", "tz", "env"]
             k = kinds[tape.draw(len(kinds))]
             stats["ops"][k] = stats["ops"].get(k, 0) + 1
             if k == "gc":
@@ -547,6 +547,37 @@ def c12_history(spec: dict) -> dict:
                 time.tzset()
                 stats["tz_changes"] += 1
                 log.append([opi, k, tz])
+                continue
+            if k == "env":
+                # process state an embedding application may change between two calls: none of it is project text
+                e = tape.draw(6)
+                v = tape.draw(4)
+                try:
+                    if e == 0:
+                        os.chdir([outdir, os.path.dirname(outdir) or "/", "/", outdir][v])
+                    elif e == 1:
+                        import locale
+
+                        locale.setlocale(locale.LC_ALL, ["C", "C.UTF-8", "POSIX", "C"][v])
+                    elif e == 2:
+                        import logging
+
+                        logging.getLogger().setLevel([logging.DEBUG, logging.WARNING, logging.CRITICAL, logging.NOTSET][v])
+                    elif e == 3:
+                        import random as _random
+
+                        _random.seed(v)
+                        _random.random()
+                    elif e == 4:
+                        sys.setrecursionlimit([1500, 3000, 10000, 2000][v])
+                    else:
+                        import decimal
+
+                        decimal.getcontext().prec = [6, 28, 50, 12][v]
+                except Exception:  # noqa: BLE001 - a locale this image does not have
+                    pass
+                stats["env_changes"] = stats.get("env_changes", 0) + 1
+                log.append([opi, k, e, v])
                 continue
             if k == "cancel":
                 armed = {"exc": tape.draw(3), "frac": tape.draw(100)}
